@@ -2,6 +2,7 @@ package main
 
 import (
 	"fmt"
+	"go/token"
 	"sort"
 	"strings"
 
@@ -25,6 +26,7 @@ func propC11(c *Ctx) propInfo {
 	c.floor("E8.bounds", 1)
 	c.adnlLayouts()
 	c.adnlSmallFacts()
+	c.wireSizes("liteclient")
 	c.cipherContinuity()
 	c.sendUnderLock()
 	c.floor("E7.bytelayout", 12)
@@ -405,5 +407,126 @@ func (c *Ctx) adnlSmallFacts() {
 			got += fmt.Sprintf("%02x", b)
 		}
 		c.check(got == "c6b41348" && n == 2 && len(callsTo(f, "crypto/sha256.New")) == 1, R, "key id = sha256(c6b41348 | public key)", f.Pos(), got, "Address.hash hashes the prefix "+got+" (then "+fmt.Sprint(n-1)+" more piece(s)); an ADNL key id is sha256 over the TL id of pub.ed25519, c6 b4 13 48, followed by the 32-byte key - with any other prefix the server does not recognise the key it is addressed by")
+	}
+}
+
+// wireSizes (after the mutation battery): what goes on the wire is exactly as long as its parts.
+//   - Packet.marshal's buffer is 4 + 32 + len(payload) + 32 bytes (one spare byte desynchronises
+//     the stream cipher's framing for ever);
+//   - a buffer that is made with a constant length, filled by ONE PutUint16/32/64 over the whole
+//     buffer and then returned, appended to or sent has that integer's size;
+//   - a count returned by io.ReadFull is compared with the requested length so that the error is on
+//     the unequal side.
+func (c *Ctx) wireSizes(rels ...string) {
+	const R = "E7.wire-sizes"
+	if f := c.fn("liteclient", "Packet.marshal"); f != nil {
+		okv, desc := false, "no made buffer found"
+		allInstrs(f, func(b *ssa.BasicBlock, in ssa.Instruction) {
+			mk, ok := in.(*ssa.MakeSlice)
+			if !ok {
+				return
+			}
+			p := c.newProver(f, b)
+			var pl ssa.Value
+			derivesFrom(mk.Len, func(v ssa.Value) bool {
+				if cl := callOf(v); cl != nil {
+					if bi, ok := cl.Call.Value.(*ssa.Builtin); ok && bi.Name() == "len" {
+						pl = v
+						return true
+					}
+				}
+				return false
+			}, false)
+			if pl == nil {
+				return
+			}
+			d := p.lin(mk.Len).sub(p.lin(pl)).addConst(-68)
+			okv = d.isConst() && d.k.Sign() == 0
+			desc = shape(mk.Len, 4)
+		})
+		c.check(okv, R, "Packet.marshal allocates 4 + 32 + len(payload) + 32 bytes", f.Pos(), desc, "Packet.marshal allocates "+desc+" bytes; a frame is length(4) nonce(32) payload checksum(32): a longer buffer puts stray zero bytes into the encrypted stream and every later frame is misaligned")
+	}
+	width := map[string]int64{"PutUint16": 2, "PutUint32": 4, "PutUint64": 8}
+	for _, f := range c.moduleFuncs(rels...) {
+		n := 0
+		allInstrs(f, func(_ *ssa.BasicBlock, in ssa.Instruction) {
+			cl, ok := in.(*ssa.Call)
+			if !ok {
+				return
+			}
+			q := callQName(&cl.Call)
+			var w int64
+			for name, ww := range width {
+				if strings.HasPrefix(q, "encoding/binary.") && strings.HasSuffix(q, "."+name) {
+					w = ww
+				}
+			}
+			if w == 0 {
+				return
+			}
+			buf := cl.Call.Args[len(cl.Call.Args)-2]
+			// the whole made buffer (possibly through x[:]), not a window of a bigger one
+			if sl, ok := buf.(*ssa.Slice); ok && sl.Low == nil && sl.High == nil {
+				if _, isAlloc := sl.X.(*ssa.Alloc); !isAlloc {
+					buf = sl.X
+				}
+			}
+			size := int64(-1)
+			switch x := buf.(type) {
+			case *ssa.MakeSlice:
+				size, _ = constInt(x.Len)
+			case *ssa.Slice:
+				if al, ok := x.X.(*ssa.Alloc); ok && al.Comment == "makeslice" {
+					if k, ok := constInt(x.High); ok || x.High == nil {
+						if nn, ok2 := arrayLen(al.Type()); ok2 {
+							size = nn
+							if ok && k < nn {
+								size = k
+							}
+						}
+					}
+					if x.Low != nil {
+						size = -1
+					}
+				}
+			}
+			if size < 0 {
+				return
+			}
+			n++
+			key := fmt.Sprintf("%s: buffer of one %d-byte integer", fnName(f), w)
+			if n > 1 {
+				key += fmt.Sprintf("#%d", n)
+			}
+			c.check(size == w, R, key, cl.Pos(), fmt.Sprintf("make([]byte, %d)", size), fmt.Sprintf("%s makes a %d-byte buffer for a single %d-byte integer and hands the whole buffer on: the extra bytes travel (or are encoded) with it", fnName(f), size, w))
+		})
+		// io.ReadFull count vs requested length
+		for _, b := range f.Blocks {
+			iff := lastIf(b)
+			if iff == nil {
+				continue
+			}
+			bo, ok := iff.Cond.(*ssa.BinOp)
+			if !ok || (bo.Op != token.EQL && bo.Op != token.NEQ) {
+				continue
+			}
+			isCount := func(v ssa.Value) bool {
+				ex, ok := v.(*ssa.Extract)
+				if !ok || ex.Index != 0 {
+					return false
+				}
+				cl := callOf(ex.Tuple)
+				return cl != nil && (callQName(&cl.Call) == "io.ReadFull" || callQName(&cl.Call) == "io.ReadAtLeast")
+			}
+			if !isCount(bo.X) && !isCount(bo.Y) {
+				continue
+			}
+			t, e := failsDirectly(f, b.Succs[0]), failsDirectly(f, b.Succs[1])
+			if t == e {
+				continue
+			}
+			failsWhenEqual := (t && bo.Op == token.EQL) || (e && bo.Op == token.NEQ)
+			c.check(!failsWhenEqual, R, fnName(f)+": bytes read vs bytes wanted", bo.Pos(), "the error is on the unequal side", fnName(f)+" fails exactly when io.ReadFull delivered the number of bytes asked for: every complete frame is refused")
+		}
 	}
 }
